@@ -18,7 +18,7 @@ LEVEL = 'exploration'
 PRELOAD = ['frame.geometry.geometry', 'frame.netlist.netlist', 'frame.die.die', 'frame.allocation.allocation', 'ruamel.yaml', 'mc.common', 'tools.glbfloor.optimization']
 RULE = ("dies {4x4, 6x4, 4x4 with a blockage, 4x4 with a square / a 2x0.5 fixed module} x pre-refinement {split_refinable_regions(2,4) / (2,16) / (1.5,9), initial_grid(2,2) / (4,4) / (2,4) / (3,2) on empty dies} x netlists of "
         "2-3 modules from {soft A, soft B, soft C (overlapping the fixed module), hard single rectangle, hard L-shape, flippable hard L-shape, flippable shapes almost aligned in x or y} (+ the fixed module of the die, also named like the optimiser's internal name of a hard module's first rectangle) with a chain of 2-pin nets or one hyperedge x "
-        "alpha in {0.1, 0.5} x threshold in {0.7, 0.95} x max_iter in {1, 2} (quick: full product minus one corner) + threshold 1.0 with 3 rounds on the dies with a fixed module; thorough: alpha {0.1,0.5,0.9} x threshold {0.5,0.7,0.95} x max_iter {1,2,3}. "
+        "alpha in {0.1, 0.5} x threshold in {0.7, 0.95} x max_iter in {1, 2} (quick: full product minus one corner) + threshold 1.0 with 3 rounds on the dies with a fixed module + designs written in units of 1e-5 and 1e-2 + module names of 88-99 characters + modules starting at the same place; thorough: alpha {0.1,0.5,0.9} x threshold {0.5,0.7,0.95} x max_iter {1,2,3}. "
         "Non-trivial = runs that returned an allocation with at least one cell shared by two modules or partially occupied; distinct by construction.")
 ASSUMPTIONS = ["'within solver tolerance': ratios in [-1e-6, 1+1e-6], per-cell occupancy <= 1 + 1e-4, centres inside the die within 1e-6 (GEKKO RTOL/OTOL default 1e-6)",
                "the check covers the enumerated instances with the APM/IPOPT binary shipped with GEKKO; it does not verify the solver",
@@ -80,6 +80,14 @@ def instances(tier):
                 full.append(dict(die=d, netlist=nl, pre=PRES[pre], alpha=a, thr=t, max_iter=it, hyper=hyper, collide=True))
     # threshold exactly 1 (the only value at which the cell of a fixed module, ratio 1.0, does not block a split) with three
     # and four refine/optimise rounds
+    # designs written in metres (a die of 40 um) and in units of 0.01
+    for unit in (1e-5, 1e-2):
+        for d in ('d44', 'd44f'):
+            for nl in (0, 2, 4, 14):
+                for pre in (0, 2):
+                    if PRES[pre][0] == 'grid' and d == 'd44f':
+                        continue
+                    full.append(dict(die=d, netlist=nl, pre=PRES[pre], alpha=0.5, thr=0.7, max_iter=2, hyper=False, unit=unit))
     # module names of 88..99 characters (valid identifiers: the optimiser derives the names of its solver variables from them)
     for ln in range(88, 100):
         for pre in (2, 0):
@@ -98,10 +106,18 @@ def build(case):
     d = DIES[case['die']]
     mods = {}
     names = []
+    u = float(case.get('unit', 1.0))        # the design is written in other units: every length x u
     for i, k in enumerate(NETLISTS[case['netlist']]):
         node = copy.deepcopy(MODS[k])
         if case['die'] == 'd64' and 'center' in node:
             node['center'][0] *= 1.5
+        if u != 1.0:
+            if 'area' in node:
+                node['area'] *= u * u
+            if 'center' in node:
+                node['center'] = [v * u for v in node['center']]
+            if 'rectangles' in node:
+                node['rectangles'] = [[v * u for v in r] for r in node['rectangles']]
         nm = f'M{i}_{k}'
         if case.get('longname') and i == 0:
             nm = (nm + '_' + 'L' * 200)[:case['longname']]
@@ -111,16 +127,16 @@ def build(case):
         fname = 'F'
         if case.get('collide'):
             fname = next(nm for nm in names if mods[nm].get('hard')) + '_0'
-        mods[fname] = {'fixed': True, 'rectangles': [d['fixed']]}
+        mods[fname] = {'fixed': True, 'rectangles': [[v * u for v in d['fixed']]]}
         names.append(fname)
     if case['hyper']:
         nets = [names[:3] + [2.0]] + ([[names[0], names[-1]]] if len(names) > 3 else [])
     else:
         nets = [[a, b] for a, b in zip(names, names[1:])]
     n = Netlist({'Modules': mods, 'Nets': nets})
-    tree = {'width': d['w'], 'height': d['h']}
+    tree = {'width': d['w'] * u, 'height': d['h'] * u}
     if d['regions']:
-        tree['regions'] = copy.deepcopy(d['regions'])
+        tree['regions'] = [[v * u for v in r[:4]] + list(r[4:]) for r in d['regions']]
     die = Die(tree, n)
     if case['pre']:
         if case['pre'][0] == 'split':
@@ -138,6 +154,10 @@ def check_case(case, res):
         attrs['collide'] = True
     die, n = build(case)
     W, H = die.width, die.height
+    u = float(case.get('unit', 1.0))
+    if u != 1.0:
+        attrs['unit'] = u
+    t9, t6 = 1e-9 * u, 1e-6 * u          # length tolerances, in the units of the design
     before = {}
     for m in n.modules:
         before[m.name] = [(r.center.x, r.center.y, r.shape.w, r.shape.h) for r in m.rectangles]
@@ -159,7 +179,7 @@ def check_case(case, res):
         r = a.rect
         q = (r.center.x - r.shape.w / 2, r.center.y - r.shape.h / 2, r.center.x + r.shape.w / 2, r.center.y + r.shape.h / 2)
         cells.append(q)
-        if q[0] < -1e-9 or q[1] < -1e-9 or q[2] > W + 1e-9 or q[3] > H + 1e-9:
+        if q[0] < -t9 or q[1] < -t9 or q[2] > W + t9 or q[3] > H + t9:
             bad('cell-inside-die', [W, H], list(q))
         tot = 0.0
         for mname, v in a.alloc.items():
@@ -171,7 +191,7 @@ def check_case(case, res):
         if len(a.alloc) > 1 or any(1e-3 < v < 1 - 1e-3 for v in a.alloc.values()):
             shared = True
     for a, b in itertools.combinations(cells, 2):
-        if min(a[2], b[2]) - max(a[0], b[0]) > 1e-9 and min(a[3], b[3]) - max(a[1], b[1]) > 1e-9:
+        if min(a[2], b[2]) - max(a[0], b[0]) > t9 and min(a[3], b[3]) - max(a[1], b[1]) > t9:
             bad('cells-overlap', 'pairwise disjoint', [list(a), list(b)])
             break
     for m in nl.modules:
@@ -181,7 +201,7 @@ def check_case(case, res):
                 bad('fixed-changed', before[m.name], rects)
             for fr in before[m.name]:
                 q = (fr[0] - fr[2] / 2, fr[1] - fr[3] / 2, fr[0] + fr[2] / 2, fr[1] + fr[3] / 2)
-                own = [a for a, c in zip(alloc.allocations, cells) if all(abs(c[k] - q[k]) <= 1e-9 for k in range(4))]
+                own = [a for a, c in zip(alloc.allocations, cells) if all(abs(c[k] - q[k]) <= t9 for k in range(4))]
                 if len(own) != 1 or own[0].alloc != {m.name: 1.0}:
                     bad('fixed-ownership', {m.name: 1.0}, [dict(o.alloc) for o in own])
             continue
@@ -195,19 +215,19 @@ def check_case(case, res):
                 bad('centre-inside-die', 'a centre', None)
                 continue
             cx, cy = c.x, c.y
-        if not (math.isfinite(cx) and math.isfinite(cy)) or cx < -1e-6 or cy < -1e-6 or cx > W + 1e-6 or cy > H + 1e-6:
+        if not (math.isfinite(cx) and math.isfinite(cy)) or cx < -t6 or cy < -t6 or cx > W + t6 or cy > H + t6:
             bad('centre-inside-die', [W, H], [cx, cy], hard=m.is_hard)
         if m.is_hard:
             b0 = before[m.name]
-            if len(rects) != len(b0) or any(abs(r[2] - q[2]) > 1e-9 or abs(r[3] - q[3]) > 1e-9 for r, q in zip(rects, b0)):
+            if len(rects) != len(b0) or any(abs(r[2] - q[2]) > t9 or abs(r[3] - q[3]) > t9 for r, q in zip(rects, b0)):
                 bad('hard-reshaped', b0, rects)
                 continue
             ok = False
             for sx, sy in itertools.product((1, -1), repeat=2):
                 if not m.flip and (sx, sy) != (1, 1):
                     continue
-                if all(abs((r[0] - rects[0][0]) - sx * (q[0] - b0[0][0])) <= 1e-6 and
-                       abs((r[1] - rects[0][1]) - sy * (q[1] - b0[0][1])) <= 1e-6 for r, q in zip(rects, b0)):
+                if all(abs((r[0] - rects[0][0]) - sx * (q[0] - b0[0][0])) <= t6 and
+                       abs((r[1] - rects[0][1]) - sy * (q[1] - b0[0][1])) <= t6 for r, q in zip(rects, b0)):
                     ok = True
             if not ok:
                 bad('hard-not-rigid', 'translation' + (' or mirror image' if m.flip else ''), dict(before=b0, after=rects), flip=m.flip)
